@@ -7,6 +7,8 @@ Every configuration is perfect for the axial object point IN CLOSED FORM (see co
   parab_fold     flat fold mirror, then a paraboloid met by light along -z     (Rc > 0)
   sphere_cc      spherical mirror imaging its own centre of curvature           (finite object)
   ellipsoid      ellipsoid mirror between its geometric foci, both directions   (finite object)
+  hyperboloid_far  convex hyperboloid mirror with the (real) object at its far focus R/(1-e), virtual image at the
+                 near focus R/(1+e): VIRTUAL_CONFIGS, ray-level clauses only (oracle_virtual)
   cassegrain     paraboloid primary + hyperboloid secondary (one focus on the prime focus, image at the other)
   gregorian      paraboloid primary + ellipsoid secondary
   planohyp       plano-hyperbolic singlet, conic = -n^2, plane side first
@@ -28,6 +30,11 @@ CONFIGS = ['parab', 'parab_fold', 'sphere_cc', 'ellipsoid', 'cassegrain', 'grego
            'planohyp_fold', 'ellipsoid_lens', 'aplanat', 'aplanat_immersed']
 
 
+# configurations whose image is virtual: checked at ray level (the line of the reflected ray passes through the
+# image point, object-to-mirror path minus mirror-to-image distance is constant) by oracle_virtual
+VIRTUAL_CONFIGS = ['hyperboloid_far']
+
+
 def _spec(obj_t, surfaces, aperture, finite):
     return {'object_thickness': obj_t, 'surfaces': surfaces, 'aperture': aperture,
             'field_type': 'object_height' if finite else 'angle', 'fields': [[0.0, 0.0, 0.0, 0.0]],
@@ -41,11 +48,25 @@ def _std(radius, thickness, material='air', conic=None, stop=False):
     return s
 
 
+def hyperboloid_far_geometry(R, e, na):
+    """marginal ray of `hyperboloid_far` (leaves the far focus f2 = R/(1-e) at sin(theta) = na): where it meets
+    the two sheets of the hyperboloid (closed form, polar equation about the focus)"""
+    f1, f2 = R / (1 + e), R / (1 - e)
+    N = math.sqrt(1 - na * na)
+    t_vertex = R / (e * N - 1)                     # > 0 below the asymptote angle (cos(theta) > 1/e)
+    t_other = R / (1 + e * N)
+    z_v = f2 + t_vertex * N
+    z_o = f2 + t_other * N
+    return {'z_vertex_sheet': z_v, 'z_other_sheet': z_o, 'PF2': t_vertex, 'PF1': abs(e * z_v + f1),
+            # StandardGeometry.distance keeps the root whose z is closer to the vertex
+            'other_sheet_is_closer_to_vertex': abs(z_o) <= abs(z_v)}
+
+
 def conic_sag(r, R, k):
     return r * r / (R * (1 + math.sqrt(1 - (1 + k) * r * r / (R * R))))
 
 
-def gen_config(rng, name, edits=None):
+def gen_config(rng, name, edits=None, vignetting=None):
     """returns dict(name, params, spec, scale, edits) ; scale = characteristic path length (for tolerances).
     edits: None = with probability 1/2 the stigmatic prescription is reached through an edit history
     (see add_edit_history)"""
@@ -91,6 +112,18 @@ def gen_config(rng, name, edits=None):
         p = {'R': R, 'e': e, 'near_first': near_first, 'na': na}
         spec = _spec(-so, [_std(R, si, 'mirror', -e * e, True)], ['objectNA', na], True)
         scale = abs(f1) + abs(f2)
+    elif name == 'hyperboloid_far':
+        R = u(20, 200)                             # convex towards the light (+z travel)
+        e = u(1.15, 3.0)
+        f1, f2 = R / (1 + e), R / (1 - e)          # near focus behind the mirror (virtual), far focus in front (real)
+        th_asym = math.atan(math.sqrt(e * e - 1))  # rays steeper than the asymptote never meet the mirror
+        th = u(0.15, 0.92) * min(th_asym, math.asin(0.9))
+        na = math.sin(th)
+        geo = hyperboloid_far_geometry(R, e, na)
+        p = {'R': R, 'e': e, 'na': na}
+        # the image surface is a dummy (the image is virtual); only the records at the mirror are used
+        spec = _spec(-f2, [_std(R, -abs(f2), 'mirror', -e * e, True)], ['objectNA', na], True)
+        scale = abs(f2) + geo['PF2'] + geo['PF1']
     elif name in ('cassegrain', 'gregorian'):
         R1 = -u(100, 600)
         fp = R1 / 2
@@ -174,11 +207,23 @@ def gen_config(rng, name, edits=None):
         scale = nh * d1 + fh + n * s1
     else:
         raise ValueError(name)
-    cfg = {'name': name, 'params': p, 'spec': spec, 'scale': scale, 'image_in_glass': None, 'edits': []}
+    cfg = {'name': name, 'params': p, 'spec': spec, 'scale': scale, 'image_in_glass': None, 'edits': [], 'vignetting': [0.0, 0.0]}
     if edits is None:
         edits = rng.random() < 0.5
     if edits:
         add_edit_history(rng, cfg)
+    if vignetting is None:
+        vignetting = rng.random() < 0.4
+    if vignetting:
+        # vignetting factors on the axial field only compress the launched pupil to an ellipse: the bundle is
+        # still the plane / spherical wave of the axial object point and every clause must hold unchanged
+        v = lambda: rng.choice([0.0, round(rng.uniform(0.05, 0.5), 3)])      # noqa: E731
+        vx, vy = rng.choice([(v(), v()), (rng.uniform(0.05, 0.5), 0.0), (0.0, rng.uniform(0.05, 0.5)),
+                             (rng.uniform(0.05, 0.5), rng.uniform(0.05, 0.5))])
+        cfg['vignetting'] = [vx, vy]
+        for sp in (cfg['spec'], cfg.get('final_spec')):
+            if sp:
+                sp['fields'][0][2], sp['fields'][0][3] = vx, vy
     if name in IMMERSED:
         # the image plane lies inside the last glass.  True: the image surface is declared in that glass
         # (nothing happens at it);  False: optiland's default, air behind the image plane
@@ -383,6 +428,46 @@ def psf_samplings(rng, k=2):
     if all(p < 2 for p in picks):
         picks[-1] = rng.choice([2, 3])       # every call exercises an odd grid
     return [rng.choice(classes[c]) for c in picks]
+
+
+def oracle_virtual(cfg, rng, n_rays=24):
+    """ray-level clauses for a configuration with a VIRTUAL image (hyperboloid_far): after the mirror the line of
+    every ray passes through the near focus (0, 0, R/(1+e)), and  path(object -> mirror) - |P F1|  is the same for
+    all rays; the hit points lie on the vertex sheet of the prescribed conic"""
+    warnings.simplefilter('ignore')
+    p = cfg['params']
+    R, e = p['R'], p['e']
+    f1 = R / (1 + e)
+    try:
+        o = build(cfg)
+        pts = pupil_points(rng, n_rays)
+        recs = trace_pencil(o, pts)
+    except Exception as ex:      # noqa
+        return [{'kind': 'build-or-trace-raises', 'error': type(ex).__name__ + ': ' + str(ex)[:200]}]
+    tol = 4096 * ULP * cfg['scale']
+    bad = []
+    vals = []
+    for (px, py), r in zip(pts, recs):
+        x, y, z, L, M, N, _, opl = r[1]
+        if not all(math.isfinite(v) for v in (x, y, z, L, M, N, opl)):
+            bad.append({'kind': 'ray-lost', 'pupil': [px, py], 'record': r[1]})
+            break
+        k = -e * e
+        if (R - (1 + k) * z) * R < 0:
+            bad.append({'kind': 'hit-on-other-sheet', 'pupil': [px, py], 'hit': [x, y, z], 'launch_direction': r[0][3:6],
+                        'note': 'the traced intersection is on the second sheet of the hyperboloid, not on the surface'})
+            break
+        # closest approach of the line (P, d) to the focus
+        wx, wy, wz = 0.0 - x, 0.0 - y, f1 - z
+        s = wx * L + wy * M + wz * N
+        miss = math.sqrt(max((wx - s * L) ** 2 + (wy - s * M) ** 2 + (wz - s * N) ** 2, 0.0))
+        if miss > tol * max(1.0, abs(s) / cfg['scale']):
+            bad.append({'kind': 'misses-virtual-image-point', 'pupil': [px, py], 'miss': miss, 'tol': tol})
+            break
+        vals.append(opl + s)          # s < 0 for a virtual image: path minus distance to the image
+    if not bad and vals and max(vals) - min(vals) > tol:
+        bad.append({'kind': 'unequal-optical-paths', 'spread': max(vals) - min(vals), 'tol': tol})
+    return bad
 
 
 def image_cone(optic, w=WL):
